@@ -276,6 +276,24 @@ def dropMany (c : Cfg) (st : St) (idxs : List Nat) : R St :=
   | .error e => .error e
   | .ok store' => .ok { st with store := store', items := keepNotIn idxs 0 st.items }
 
+/-- `set(...)` as far as `drop_many` needs it: every value once. -/
+def dedup (l : List Nat) : List Nat := l.foldr (fun x acc => if acc.contains x then acc else x :: acc) []
+
+/-- The loop at the head of the public `drop_many` (since the repair 72f20a3): every index is range-checked and
+normalised (`index + length if index < 0`) before anything is deleted; the first one out of range raises. -/
+def normIdxs (n : Nat) : List Int → Option (List Nat)
+  | [] => some []
+  | i :: is =>
+    match pyIndex i n, normIdxs n is with
+    | some k, some ks => some (k :: ks)
+    | _, _ => none
+
+/-- `drop_many(indexes)` as callers see it: any indexes (negative, repeated, in any order). -/
+def dropManyPub (c : Cfg) (st : St) (idxs : List Int) : R St :=
+  match normIdxs st.items.length idxs with
+  | none => .error "IndexError"
+  | some ks => dropMany c st (dedup ks)
+
 /-- `del self[i]` for an int index: `self[slice(i, i+1, 1)] = []`. -/
 def delItemInt (c : Cfg) (st : St) (index : Int) : R St :=
   match pyIndex index st.items.length with
